@@ -354,6 +354,13 @@ class Interp:
             raise NotModelled("call of %s is not modelled" % fn.dotted)
         if isinstance(fn, _Builtin):
             return self._native(fn.f, (self,) + tuple(args), kwargs, node)
+        if isinstance(fn, Obj) and fn.cls is not None:
+            ok, r = self._class_lookup(fn.cls, fn, "__call__")
+            if ok:
+                return self.call(r, args, kwargs, node)
+            raise PyRaise("TypeError", ("%s object is not callable" % fn.cls.name,), node)
+        if isinstance(fn, PyModel) and callable(fn):
+            return self._native(fn, tuple(args), kwargs, node)
         if callable(fn) and (getattr(fn, "__self__", None) is not None or isinstance(fn, type(len))):
             # bound method of a model value (str.format, list.append, PyModel method, ...)
             return self._native(fn, tuple(args), kwargs, node)
@@ -1109,6 +1116,14 @@ class _Iter:
         return v
 
 
+class _Sentinel(PyModel):
+    """object(): a unique value"""
+
+
+def _type_of(x):
+    raise NotModelled("type() of %r" % type(x).__name__)
+
+
 class _Builtin:
     def __init__(self, f, name=""):
         self.f = f
@@ -1282,6 +1297,13 @@ _BUILTINS = {
     "zip": _Builtin(lambda it, *a: [tuple(r) for r in zip(*[it.iterate(x) for x in a])], "zip"),
     "enumerate": _Builtin(lambda it, x, start=0: list(enumerate(it.iterate(x), start)), "enumerate"),
     "reversed": _Builtin(lambda it, x: list(reversed(it.iterate(x))), "reversed"),
+    "object": _Builtin(lambda it: _Sentinel(), "object"),
+    "callable": _Builtin(lambda it, x: isinstance(x, (Closure, Bound, NativeBound, ClassRef, _Builtin)) or callable(x), "callable"),
+    "divmod": _Builtin(lambda it, a, b: divmod(a, b), "divmod"),
+    "ord": _Builtin(lambda it, c: ord(c), "ord"), "chr": _Builtin(lambda it, c: chr(c), "chr"),
+    "bytes": _Builtin(lambda it, *a: bytes(*a), "bytes"), "bytearray": _Builtin(lambda it, *a: bytearray(*a), "bytearray"),
+    "float": _Builtin(lambda it, x=0.0: float(x), "float"), "round": _Builtin(lambda it, *a: round(*a), "round"),
+    "type": _Builtin(lambda it, x: ClassRef(x.cls) if isinstance(x, Obj) and x.cls is not None else _type_of(x), "type"),
     "hex": _Builtin(lambda it, x: hex(x) if isinstance(x, int) else "0x<%s>" % (x,), "hex"),
     "abs": _Builtin(lambda it, x: abs(x), "abs"),
     "sum": _Builtin(lambda it, x, start=0: sum(it.iterate(x), start), "sum"),
@@ -1517,6 +1539,39 @@ def _default_natives(it):
             return _wrap(getattr(_re, name)(pat, s2, flags))
         return f
 
+    class _Getter(PyModel):
+        def __init__(self, f):
+            self._f = f
+
+        def __call__(self, *a):
+            return self._f(*a)
+
+    def attrgetter(*names):
+        def one(o, dotted):
+            for part in dotted.split("."):
+                o = it.getattr(o, part)
+            return o
+        if len(names) == 1:
+            return _Getter(lambda o: one(o, names[0]))
+        return _Getter(lambda o: tuple(one(o, n) for n in names))
+
+    def itemgetter(*keys):
+        def one(o, k):
+            if isinstance(o, Obj):
+                return it.call(it.getattr(o, "__getitem__"), (k,))
+            return o[k]
+        if len(keys) == 1:
+            return _Getter(lambda o: one(o, keys[0]))
+        return _Getter(lambda o: tuple(one(o, k) for k in keys))
+
+    def methodcaller(name, *a, **k):
+        return _Getter(lambda o: it.call(it.getattr(o, name), a, k))
+
+    def partial(f, *a, **k):
+        return _Getter(lambda *b, **kk: it.call(f, a + b, dict(k, **kk)))
+
+    import operator as _op
+
     def reduce(f, seq, *init):
         import functools
         return functools.reduce(lambda a, b: it.call(f, (a, b)), it.iterate(seq), *init)
@@ -1527,6 +1582,12 @@ def _default_natives(it):
         "itertools.takewhile": takewhile, "itertools.dropwhile": dropwhile, "itertools.chain": chain,
         "itertools.chain.from_iterable": chain_from_iterable, "itertools.groupby": groupby, "itertools.islice": islice,
         "itertools.accumulate": accumulate, "itertools.pairwise": pairwise, "itertools.product": product,
+        "operator.attrgetter": attrgetter, "operator.itemgetter": itemgetter, "operator.methodcaller": methodcaller,
+        "functools.partial": partial,
+        "operator.not_": lambda x: not it.truth(x), "operator.truth": lambda x: it.truth(x),
+        "operator.is_": lambda a, b: _is(a, b), "operator.is_not": lambda a, b: not _is(a, b),
+        "operator.eq": _op.eq, "operator.ne": _op.ne, "operator.lt": _op.lt, "operator.le": _op.le, "operator.gt": _op.gt, "operator.ge": _op.ge,
+        "operator.add": _op.add, "operator.sub": _op.sub, "operator.mul": _op.mul, "operator.contains": lambda c, x: it._contains(c, x, None),
         "re.compile": re_compile, "re.match": re_fn("match"), "re.search": re_fn("search"), "re.fullmatch": re_fn("fullmatch"),
         "functools.reduce": reduce,
     }
